@@ -162,8 +162,8 @@ def build(ch):
     """-> (source label, culture, query, reference)"""
     S.pop('only', None)
     part = ch.pick('part', ('specs', 'tokens-k2', 'tokens-k3', 'entity-pairs', 'entity-triples', 'modifier-stacks', 'unit-chains',
-                            'two-threads', 'normaliser'))
-    if part == 'two-threads':
+                            'two-threads', 'shared-state-writes', 'normaliser'))
+    if part in ('two-threads', 'shared-state-writes'):
         return part, None, None, None
     if part == 'normaliser':
         return part, None, None, None
@@ -274,3 +274,36 @@ def two_threads(ch):
                                    lambda q=qb: registry.parse(rec, mt, 'en-us', q, registry.REF)], chunk=60)
     got = [ex.results[i] if ex.errors[i] is None else 'EXC ' + ex.errors[i] for i in (0, 1)]
     return (rec, mt), (qa, qb), plan, got, alone
+
+
+def shared_state_writes(ch):
+    """Premise under which a verdict about sequential calls also speaks for concurrent callers: no model call writes to the
+    process-wide cached model.  For every registered (model, culture): build it (cold cache, empty query), then answer up to
+    6 (date-time; 25 for the other recognisers) inputs of its own spec file; the structural fingerprint of the cached state must not change - neither at first use
+    nor later.  Returns None or (key, record)."""
+    from vmc import state
+    keys = registry.registered()
+    rec, mt, cul = ch.pick('model', keys)
+    ch.shard()
+    want_model = mt[:-5] if mt.endswith('Model') else mt
+    inputs = [spec['Input'] for s, i, spec in specs.supported_cases(recognizer=rec, entity='Model')
+              if s['culture'] == cul and s['model'] == want_model and not s['options'] and spec.get('Results')][:6 if rec == 'DateTime' else 25]
+    if not inputs:
+        inputs = ['3 km and 25 %, nov 7 at 3pm, 1.2.3.4 yes']
+    state.reset_cache()
+    registry._RECS.clear()
+    registry.parse(rec, mt, cul, '', registry.REF)
+    before = state.fingerprint(state.cache_roots())
+    for n, q in enumerate(inputs):
+        registry.parse(rec, mt, cul, q, registry.REF)
+        after = state.fingerprint(state.cache_roots())
+        d = state.diff_fingerprints(before, after)
+        if d['n']:
+            registry._RECS.clear()
+            state.reset_cache()
+            return ('shared-state-written|%s|%s|%s' % (cul, mt, 'first-use' if n == 0 else 'warm'),
+                    {'culture': cul, 'model': mt, 'query': q, 'state_diff': d})
+        before = after
+    registry._RECS.clear()
+    state.reset_cache()
+    return None
